@@ -327,6 +327,10 @@ class AnsiString:
             end - The string index where the setting(s) should be removed
             topmost - When False, all other existing settings in this range will take precedent
         '''
+        if isinstance(settings, int):
+            # An integer is a code (0 is the reset code), never "nothing given"
+            settings = [settings]
+
         start = self._slice_val_to_idx(start, 0)
         end = self._slice_val_to_idx(end, len(self._s))
 
@@ -375,6 +379,10 @@ class AnsiString:
             start - The string start index where setting(s) are to be applied
             end - The string index where the setting(s) should be removed
         '''
+        if isinstance(settings, int):
+            # An integer is a code (0 is the reset code), never "nothing given"
+            settings = [settings]
+
         start = self._slice_val_to_idx(start, 0)
         end = self._slice_val_to_idx(end, len(self._s))
 
